@@ -145,6 +145,7 @@ class NDOptionBase (packet_base):
   #TYPE = <type>
 
   def __init__ (self, *args, **kw):
+    packet_base.__init__(self)
     self.prev = kw.pop('prev', None)
     self._init(*args, **kw)
     init_helper(self, kw)
